@@ -9,7 +9,7 @@ SPEC = {
                  'C22_accepted_implies_acceptable_refuted', 'C22_refuted_forward',
                  'C22_refuted_negfee', 'C22_refuted_hdrempty', 'C22_guards_satisfiable',
                  'C22_blacklist_positions_are_C31_core',
-                 'C22_history_entries_admitted_partial', 'C22_history_pool_unexpired_partial',
+                 'C22_history_entries_via_pipeline_partial', 'C22_history_pool_unexpired_partial',
                  'C22_history_pool_unexpired_refuted', 'C22_delay_cache_never_blocked',
                  'C22_header_moves_verdicts', 'C22_fork_gate_moves_verdict', 'C22_delayed_enter_through_pipeline',
                  'C22_history_guard_satisfiable'],
